@@ -59,5 +59,8 @@ RangeKept == Band(65535) =>
                IN  lo <= r /\ r <= hi
 \* 8-bit clip table: acc = P/2 + sum k x with |sum k x| <= 255 * sumAbs ; here S plays sum |k|
 ClipIndexOK == (P \in Pows8 /\ 2 * S < 5 * P /\ Abs(acc - P \div 2) <= 255 * S) => (acc \div P >= -640 /\ acc \div P <= 639)
+\* a normalised window: positive mass pos, negative mass neg, pos - neg = P, pos + neg = S
+ClipIndexNorm == (P \in Pows8 /\ S < 4 * P /\ kLo >= 0 /\ (S - kLo) - kLo = P
+                  /\ acc - P \div 2 <= 255 * (S - kLo) /\ acc - P \div 2 >= -255 * kLo) => (acc \div P >= -640 /\ acc \div P <= 639)
 ClipIndexBad == (P \in Pows8 /\ S < 4 * P /\ Abs(acc - P \div 2) <= 255 * S) => (acc \div P >= -640 /\ acc \div P <= 639)
 =============================================================================
